@@ -194,12 +194,10 @@ theorem union_invalid {g : DisjointSetUnion} {n : Nat} {par rank : Nat → Nat} 
 /-- `DisjointSetUnion(node_number=n)` refines `Dsu.init n` -/
 theorem init_refines (g0 : DisjointSetUnion) (n : Nat) :
     ∃ g, dsu_init g0 (n : Int) = some (g, ()) ∧ Rep g n (init n).par (init n).rank := by
-  have h1 : ∀ (xs : List Int) (v : dsu_init.V),
-      Py.forEach (fun x (v : dsu_init.V) => (fun (v : dsu_init.V) => Py.Res.next (R := Unit) { v with c0_ := (v.c0_ ++ [v.i]) }) { v with i := x }) xs v
+  have h1 : ∀ (xs : List Int) (v : dsu_init.V), Py.forEach dsu_init.for1 xs v
         = .next (xs.foldl (fun v x => { v with c0_ := v.c0_ ++ [x], i := x }) v) :=
     Py.forEach_pure _ _ (fun _ _ => rfl)
-  have h2 : ∀ (xs : List Int) (v : dsu_init.V),
-      Py.forEach (fun x (v : dsu_init.V) => (fun (v : dsu_init.V) => Py.Res.next (R := Unit) { v with c2_ := (v.c2_ ++ [(0 : Int)]) }) { v with underscore_ := x }) xs v
+  have h2 : ∀ (xs : List Int) (v : dsu_init.V), Py.forEach dsu_init.for2 xs v
         = .next (xs.foldl (fun v x => { v with c2_ := v.c2_ ++ [(0 : Int)], underscore_ := x }) v) :=
     Py.forEach_pure _ _ (fun _ _ => rfl)
   have f1 : ∀ (xs : List Int) (v : dsu_init.V),
